@@ -631,10 +631,13 @@ fn word(prop: &str, k: usize, len: usize, mut idx: usize) -> Vec<BOp> {
 }
 fn syms_to_ops(prop: &str, syms: &[usize]) -> Vec<BOp> {
     let mut occ = [0usize; 24];
+    // C17: in every second word (by the parity of its symbol sum) a setter's 2nd, 4th ... occurrence supplies the SAME value as
+    // the one before it - supplying a key twice is a repetition whether or not the value changed
+    let same_values = prop == "C17" && syms.iter().sum::<usize>() % 2 == 1;
     let mut ops: Vec<BOp> = syms
         .iter()
         .map(|&s| {
-            let o = if prop == "C13" { sym_c13(s, occ[s]) } else { sym_c17(s, occ[s]) };
+            let o = if prop == "C13" { sym_c13(s, occ[s]) } else { sym_c17(s, if same_values { occ[s] / 2 } else { occ[s] }) };
             occ[s] += 1;
             o
         })
@@ -1027,4 +1030,4 @@ pub fn replay_pair(prop: &str, case: &Value) -> Report {
 }
 
 pub const RULE_C13: &str = "call words over {set exp, set nbf, set iat, set iss, set custom a, set custom 'Exp' / 'IAT' / 'Nbf' (custom claims that equal a time claim up to case), an attempt to set a custom claim named exactly exp (null) or nbf (refused by the constructor in both forms: must leave no trace), acknowledge, set_footer, set_implicit_assertion, build} (a final build is appended to words that do not end in one): ALL words up to length 4 (thorough 6) on v4.local, seeded random words up to length 12 on all 8 protocols; plus 614 (thorough 20014) builders created at instants of a VIRTUAL clock (hook verif::set_now: year/leap-day boundaries, the last and first second of a minute / hour / day / month / year, 2^31 s, the i64-ns limit, up to year 8999, random, odd sub-second parts) whose defaults must be exactly (now+1h, now, now). Plus 3000 (thorough 40000) PAIRS of builders (same or different protocols) alive at once on one thread with their operations interleaved in a seeded order: each must behave exactly as if it were alone. Plus 4000 (thorough 60000) barrier-released ROUNDS of up to 8 builders on DIFFERENT threads at once (custom claim names new to the process in every round, shared by the threads of the round), each judged as if alone. Plus histories in which one build FAILS IN THE SEALING STEP (unusable private-key material / injected RNG failure through the hook verif::set_rng_fault; no verdict on that build) and the builds that follow are judged like any other. Every token of every successful build (first and later builds of one builder) is read back and compared with a state machine written from the property: exp present iff not acknowledged; default exp == creation + 3600.000000000 s, default iat == default nbf within the clock bracket taken around the run (5 ms slack); caller-supplied exp/iat/nbf values present - also in ~24 unusual spellings outside RFC 3339 (hour 24, basic format, ordinal / week dates, 30 February, leap second, 18 fraction digits ...) for which the typed constructor is first probed: what it accepts must arrive in the token. distinct_nontrivial = distinct (protocol, word, build number) that built and conformed; caller-supplied instants lie on both sides of the creation time and of creation + 1 h";
-pub const RULE_C17: &str = "call words over {set_claim(k) for k in exp,nbf,iat,iss,sub,aud,jti,a,b,userId,Role,role; acknowledge; set_footer; build} (a final build appended): ALL words up to length 4 (thorough 5) on v4.local, seeded random words up to length 40 on all 8 protocols; 3000 (thorough 40000) PAIRS of builders (same or different protocols) alive at once on one thread with their operations interleaved in a seeded order, each judged as if alone; 4000 (thorough 60000) barrier-released ROUNDS of up to 8 builders on DIFFERENT threads at once (custom claim names new to the process in every round, shared by the threads of the round; half of the setters are custom claims), each judged as if alone; histories in which one build fails in the sealing step (unusable private-key material / injected RNG failure; no verdict on that build) and the following builds are judged like any other; every occurrence of a setter uses a different value. Plus ~45 pairs of DIFFERENT custom keys that collide under FNV-1/1a, the 31-multiplier hash, djb2, CRC-32, byte sums, truncation (8..256 bytes, u8/u16 characters), NFC/NFD or an embedded NUL: setting both is not a repetition, setting one of them again is; 255/256/257/600 distinct keys on one builder, then one of them again. Model: once any key has been supplied twice every build must fail with the duplicate-claim error naming one of the duplicated keys; otherwise every build must succeed and carry the caller's values; exp supplied after the acknowledgement may be refused as duplicate or ignored. distinct_nontrivial = distinct (protocol, word, build number, outcome class)";
+pub const RULE_C17: &str = "call words over {set_claim(k) for k in exp,nbf,iat,iss,sub,aud,jti,a,b,userId,Role,role; acknowledge; set_footer; build} (a final build appended): ALL words up to length 4 (thorough 5) on v4.local, seeded random words up to length 40 on all 8 protocols; 3000 (thorough 40000) PAIRS of builders (same or different protocols) alive at once on one thread with their operations interleaved in a seeded order, each judged as if alone; 4000 (thorough 60000) barrier-released ROUNDS of up to 8 builders on DIFFERENT threads at once (custom claim names new to the process in every round, shared by the threads of the round; half of the setters are custom claims), each judged as if alone; histories in which one build fails in the sealing step (unusable private-key material / injected RNG failure; no verdict on that build) and the following builds are judged like any other; every occurrence of a setter uses a different value, except in every second word, where a repeated setter supplies the SAME value again (still a repetition). Plus ~45 pairs of DIFFERENT custom keys that collide under FNV-1/1a, the 31-multiplier hash, djb2, CRC-32, byte sums, truncation (8..256 bytes, u8/u16 characters), NFC/NFD or an embedded NUL: setting both is not a repetition, setting one of them again is; 255/256/257/600 distinct keys on one builder, then one of them again. Model: once any key has been supplied twice every build must fail with the duplicate-claim error naming one of the duplicated keys; otherwise every build must succeed and carry the caller's values; exp supplied after the acknowledgement may be refused as duplicate or ignored. distinct_nontrivial = distinct (protocol, word, build number, outcome class)";
